@@ -899,3 +899,145 @@ def send_classes():
         ("D", [(58, "€ uro")], "App-nonlatin1"),
         ("U1", [(58, "custom")], "App-customtype"),
     ]
+
+
+# ------------------------------------------------------------------------------------------
+# random histories (lock-step: the implementation object keeps its own state between events)
+# ------------------------------------------------------------------------------------------
+
+
+def fresh(role, rng, sender="INIT", target="ACPT") -> AbsConn:
+    """a connection object as its constructor leaves it, over a journal that may be non-empty"""
+    a = AbsConn(state=1, role=role, sender=sender if role != 2 else target, target=target if role != 2 else sender)
+    a.hb = rng.choice([1, 2, 5, 30])
+    ni, no = rng.choice([(1, 1), (1, 1), (3, 6), (9, 4), (2**32 + 1, 2**32 + 7)])
+    a.next_in, a.next_out = ni, no
+    return with_journal(a, rng.choice(["empty", "app", "mixed", "holes", "sess"]))
+
+
+def next_event(rng, a: AbsConn, now):
+    """one plausible-or-hostile event for the current abstract state; returns (sr, event, label)"""
+    sr = rng.choice(["all", "all", "none", f"d{max(1, a.next_out - 2)}"])
+    r = rng.random()
+    ni = a.next_in
+
+    def rx(lab, mt, body, seq="auto", pd=False, defect="none"):
+        return (sr, ("recv", now, defective(a, defect, mt, body, ni if seq == "auto" else seq, pd, now)), "recv:" + lab)
+
+    if a.state <= 3:
+        if r < 0.6:
+            return (sr, ("conn", "acc" if a.role == 2 else rng.choice(["init", "init", "fail"])), "conn")
+        if r < 0.7:
+            return rx("App", "D", [(58, "late")])
+        if r < 0.8:
+            return (sr, ("send", now, ("D", [(58, "late")])), "send:App")
+        if r < 0.9:
+            return (sr, ("tick", now), "tick")
+        return (sr, ("eof", now), "eof")
+    if a.state == 6 and a.role != 2 and r < 0.7:
+        return (sr, ("send", now, ("A", [(98, "0"), (108, str(a.hb))])), "send:Logon")
+    if a.state in (6, 7) and r < 0.75:
+        seq = ni if rng.random() < 0.7 else ni + rng.choice([1, 3])
+        return rx("Logon", "A", [(98, "0"), (108, str(a.hb))], seq)
+    # established (or hostile traffic before logon)
+    k = rng.random()
+    if r < 0.30:
+        if k < 0.6:
+            return rx("App", "D", [(11, f"c{ni}"), (58, "payload")])
+        if k < 0.75:
+            return rx("App", "D", [(11, "gap"), (58, "early")], ni + rng.choice([1, 2, 7]))
+        if k < 0.85:
+            return rx("App", "D", [(11, "old")], max(0, ni - rng.choice([1, 2])), pd=rng.random() < 0.5)
+        return rx("App", "D", [(11, f"c{ni}"), (58, "resent")], ni, pd=True)
+    if r < 0.40:
+        tid = a.test_req_id if a.test_req_id is not None else 5
+        body = rng.choice([[], [(112, str(tid))], [(112, str(tid + 1))], [(112, "zz")]])
+        return rx("Heartbeat", "0", body, ni if k < 0.8 else ni + 1)
+    if r < 0.46:
+        return rx("TestRequest", "1", rng.choice([[(112, "T1")], []]), ni if k < 0.8 else ni + 2)
+    if r < 0.56:
+        no = a.next_out
+        b = rng.choice([1, max(1, no - 1), max(1, no - 3), no, no + 2, 0])
+        e = rng.choice([0, 0, 0, max(1, no - 2), 1, no + 5])
+        return rx("Resend", "2", [(7, str(b)), (16, str(e))], ni if k < 0.8 else ni + 1)
+    if r < 0.64:
+        gf = rng.random() < 0.6
+        seq = ni if k < 0.7 else ni + rng.choice([-1, 1, 3])
+        new = seq + rng.choice([-1, 0, 1, 2, 5])
+        return rx("GapFill" if gf else "Reset", "4", ([(123, "Y")] if gf else []) + [(36, str(max(0, new)))], max(0, seq),
+                  pd=rng.random() < 0.3)
+    if r < 0.76:
+        mt, tags, lab = rng.choice(send_classes())
+        return (sr, ("send", now, (mt, tags)), "send:" + lab)
+    if r < 0.86:
+        return (sr, ("tick", now), "tick")
+    if r < 0.89:
+        return rx("Logout", "5", rng.choice([[], [(58, "bye")]]), ni if k < 0.8 else ni + 1)
+    if r < 0.91:
+        return (sr, ("eof", now), "eof")
+    if r < 0.93:
+        return (sr, ("testreq", now), "testreq")
+    if r < 0.945:
+        return (sr, ("disc", now, rng.choice([1, 2, 3]), rng.choice([None, "", "bye"])), "disc")
+    if r < 0.955:
+        return (sr, ("reset",), "reset")
+    if r < 0.985:
+        d = rng.choice(DEFECTS)
+        return rx("defect-" + d, rng.choice(["D", "0", "A"]), [(58, "x")], rng.choice([ni, ni - 1, None]), defect=d)
+    return rx("App", "D", [(58, "x")], rng.choice([None, "abc", f" {ni} "]))
+
+
+def run_history(impl: Impl, rng, max_len, stats=None):
+    """generate and run one history on the implementation; returns (start, [(sr, ev, label, eff, post)])"""
+    role = rng.choice([1, 1, 2])
+    start = fresh(role, rng)
+    impl.load(start)
+    now = T0
+    a = start
+    steps = []
+    n = rng.randint(max_len // 2, max_len)
+    for _ in range(n):
+        now += rng.choice([0, 125, 250, 1000, 1000, 3000, a.hb * 1000, a.hb * 2000 + 125])
+        sr, ev, lab = next_event(rng, a, now)
+        del impl.eff[:]
+        impl.apply(sr, ev)
+        eff, post = impl.effects(), impl.dump()
+        if stats is not None:
+            note_stats(stats, a, ev, eff, lab)
+        steps.append((sr, ev, lab, eff, post))
+        a = parse_conn_tokens(post)
+    return start, steps
+
+
+def compare_histories(impl: Impl, rng, n_hist, max_len, driver=None, stats=None):
+    """lock-step comparison after every event.  Returns (events, disagreements)."""
+    drv = driver or C.Driver()
+    hist = [run_history(impl, rng, max_len, stats) for _ in range(n_hist)]
+    lines, index = [], []
+    for hi, (start, steps) in enumerate(hist):
+        lines.append("sess.load " + start.tokens())
+        index.append(None)
+        for si, (sr, ev, lab, eff, post) in enumerate(steps):
+            lines.append(f"sess.ev {sr} {event_tokens(ev)}")
+            index.append((hi, si))
+    model = drv.batch(lines) if lines else []
+    dis, bad_hist, events = [], set(), 0
+    for ml, ix in zip(model, index):
+        if ix is None:
+            assert ml == "ok", ml
+            continue
+        hi, si = ix
+        events += 1
+        if hi in bad_hist:
+            continue
+        sr, ev, lab, eff, post = hist[hi][1][si]
+        il = reply(eff, post)
+        if il != ml:
+            bad_hist.add(hi)  # later steps of this history start from different states
+            start, steps = hist[hi]
+            dis.append({
+                "input": {"history": {"start": start.tokens(),
+                                      "events": [[s[0], event_tokens(s[1])] for s in steps[: si + 1]]},
+                          "label": lab, "step": si},
+                "model": ml, "impl": il})
+    return events, dis
